@@ -219,6 +219,8 @@ class Sim(object):
                         r = subprocess.run(argv, cwd=w, env=env, stdin=subprocess.DEVNULL,
                                            capture_output=True, timeout=timeout)
                         out.append({'op': 'cli', 'ok': {'exit': r.returncode},
+                                    'out': r.stdout.decode('utf-8', 'replace')
+                                    .replace(root, '/sim'),
                                     'stderr_tail': r.stderr[-300:].decode('utf-8', 'replace')
                                     .replace(root, '/sim')})
                     except subprocess.TimeoutExpired:
